@@ -143,6 +143,8 @@ class LAMEHeader(object):
         self.album_gain_origin = r.bits(3)
         sign = r.bits(1)
         album_gain_adj = r.bits(9) / 10.0
+        if sign:
+            album_gain_adj *= -1
         if album_gain_type == 2:
             self.album_gain_adjustment = album_gain_adj
         else:
